@@ -98,9 +98,16 @@ fn build_twin(route: usize, obs: &[Entry], rng: &mut Rng, orig: &Object) -> Opti
             }
             9 => {
                 // Clone::clone_from onto an object that has a history (and a hash builder) of its own
+                // the destination holds unrelated keys, or the same entries in another order, or the same
+                // keys with other values, or one key repeated: whatever it held must not shine through
                 let mut o = Object::new();
-                for i in 0..rng.urange(0, 6) { o.push(Key::from(format!("other-{}", i).as_str()), Value::Null); }
-                if rng.chance(1, 2) { o.remove_at(0); }
+                match rng.below(5) {
+                    0 => { for i in 0..rng.urange(0, 6) { o.push(Key::from(format!("other-{}", i).as_str()), Value::Null); } if rng.chance(1, 2) { o.remove_at(0); } }
+                    1 => { for e in obs.iter().rev() { o.push(e.key.clone(), e.value.clone()); } }
+                    2 => { for e in obs.iter() { o.push(e.key.clone(), Value::Null); } o.sort(); }
+                    3 => { if let Some(e) = obs.first() { for _ in 0..obs.len() { o.push(e.key.clone(), Value::Boolean(true)); } } }
+                    _ => { let n = obs.len(); for i in 0..n { let e = &obs[(i + 1) % n]; o.push_front(e.key.clone(), e.value.clone()); } }
+                }
                 o.clone_from(orig);
                 o
             }
@@ -197,7 +204,10 @@ pub fn run_c14(sc: &HistSc, st: &mut Stats) -> super::c06::HistOutcome {
         // convergent twins
         for route in 0..ROUTES.len() {
             let twin = match build_twin(route, &obs, &mut rng, &regs[r]) { Some(t) => t, None => continue };
-            if !same_observed(&twin, &obs) { st.note("twin construction did not reproduce the entry list (a C06 matter); twin skipped", 0, || format!("route {} for {}", ROUTES[route], show(&obs))); continue; }
+            // (a clone is not a reconstruction: "clones equal their originals" is C14's own sentence, so a
+            // clone / clone_from that holds other entries is judged, not skipped)
+            let is_clone = route == 5 || route == 9;
+            if !is_clone && !same_observed(&twin, &obs) { st.note("twin construction did not reproduce the entry list (a C06 matter); twin skipped", 0, || format!("route {} for {}", ROUTES[route], show(&obs))); continue; }
             let (tb, tdump) = twin.verif_index_dump();
             let layout_differs = tb != orig_buckets || tdump != orig_dump;
             st.bump("twin_pairs_compared");
